@@ -164,6 +164,10 @@ def has_check_type_in_type(type_: type, check_type: type) -> bool:
     """Return True if a given type is a subclass of check_type or a complex
     type that has a subclass of check_type among it's arguments."""
 
+    if is_new_type(type_):
+        # A NewType may wrap check_type (or a complex type that mentions it)
+        type_ = unwrap_newtype(type_)
+
     try:
         if issubclass(type_, check_type):
             return True
@@ -195,6 +199,10 @@ def _is_valid_child_field_type(
     caught in the outer function.
     """
 
+    if is_new_type(type_):
+        # NewType wrappers do not change the shape of the type
+        type_ = unwrap_newtype(type_)
+
     if not allow_sequence and is_optional(type_):
         # We do not allow optionals within sequences
         # So check this early
@@ -204,6 +212,7 @@ def _is_valid_child_field_type(
     if is_optional(type_) or is_union(type_):
         # For plain unions we only allow direct subclasses of node_type
         # So easy check
+        args = tuple(unwrap_newtype(t) if is_new_type(t) else t for t in args)
 
         try:
             if not all(issubclass(t, node_base_type) for t in args if t is not type(None)):
